@@ -106,7 +106,16 @@ type Case struct {
 	Events []Event `json:"events,omitempty"`
 	NS     []int   `json:"ns_bytes,omitempty"`   // names family: arbitrary bytes
 	Name   []int   `json:"name_bytes,omitempty"` // names family
+	MOps   []MOp   `json:"mops,omitempty"`       // mgr family
 	Obs    any     `json:"obs"`
+}
+
+// MOp is one call of a LocalManager file method. Fam: conf | stream | hosts | main | secret | dhparam | ap.
+type MOp struct {
+	Op      string `json:"op"` // write | del
+	Fam     string `json:"fam"`
+	Name    string `json:"name"`
+	Content string `json:"content,omitempty"`
 }
 
 // ---------- manager wrapper: real file operations, no binary ----------
@@ -501,6 +510,110 @@ func runHist(work, repo string, c *Case) {
 	c.Obs = obs
 }
 
+// ---------- mgr family: the file methods of the real LocalManager, whole root listed after every call ----------
+
+func listRoot(root string) [][2]string {
+	out := [][2]string{}
+	filepath.Walk(root, func(p string, info os.FileInfo, err error) error {
+		if err != nil || info.IsDir() {
+			return nil
+		}
+		rel, _ := filepath.Rel(root, p)
+		b, _ := os.ReadFile(p)
+		out = append(out, [2]string{filepath.ToSlash(rel), string(b)})
+		return nil
+	})
+	sort.Slice(out, func(i, j int) bool { return out[i][0] < out[j][0] })
+	return out
+}
+
+func runMgr(work string, c *Case) {
+	root, err := os.MkdirTemp(work, fmt.Sprintf("m%d-", c.ID))
+	if err != nil {
+		c.Obs = map[string]any{"error": err.Error()}
+		return
+	}
+	defer os.RemoveAll(root)
+	for _, d := range []string{"conf.d", "stream-conf.d", "secrets", "state_files", "ap"} {
+		os.MkdirAll(filepath.Join(root, d), 0o755)
+	}
+	ctx := nl.ContextWithLogger(context.Background(), quiet)
+	lm := nginx.NewLocalManager(ctx, root, false, collectors.NewManagerFakeCollector(), nil, 10*time.Millisecond, c.Plus)
+	obs := make([][][2]string, 0, len(c.MOps))
+	for _, o := range c.MOps {
+		b := []byte(o.Content)
+		switch o.Op + ":" + o.Fam {
+		case "write:conf":
+			lm.CreateConfig(o.Name, b)
+		case "del:conf":
+			lm.DeleteConfig(o.Name)
+		case "write:stream":
+			lm.CreateStreamConfig(o.Name, b)
+		case "del:stream":
+			lm.DeleteStreamConfig(o.Name)
+		case "write:hosts":
+			lm.CreateTLSPassthroughHostsConfig(b)
+		case "write:main":
+			lm.CreateMainConfig(b)
+		case "write:secret":
+			lm.CreateSecret(o.Name, b, 0o600)
+		case "del:secret":
+			lm.DeleteSecret(o.Name)
+		case "write:dhparam":
+			lm.CreateDHParam(o.Content)
+		case "write:ap":
+			lm.CreateAppProtectResourceFile(filepath.Join(root, "ap", o.Name), b)
+		case "del:ap":
+			lm.DeleteAppProtectResourceFile(filepath.Join(root, "ap", o.Name))
+		}
+		obs = append(obs, listRoot(root))
+	}
+	c.Obs = obs
+}
+
+func genMgr(r *vh.Rng, id int) Case {
+	names := []string{"a", "a-b", "vs_a_b", "x.y"}[:2+r.Intn(3)]
+	contents := []string{"A", "B", "server { }", ""}[:2+r.Intn(3)]
+	fams := []string{"conf", "stream", "secret", "ap", "hosts", "main", "dhparam"}
+	if r.Chance(1, 2) {
+		fams = fams[:1+r.Intn(4)] // concentrate on few families: more add/delete/re-add on one path
+	}
+	c := Case{Fam: "mgr", ID: id, Class: "mgr", Plus: r.Chance(1, 4)}
+	n := 6 + r.Intn(14)
+	for i := 0; i < n; i++ {
+		f := vh.Pick(r, fams)
+		o := MOp{Op: "write", Fam: f, Name: vh.Pick(r, names), Content: vh.Pick(r, contents)}
+		switch f {
+		case "hosts", "main", "dhparam":
+			o.Name = ""
+		default:
+			if r.Chance(2, 5) {
+				o.Op, o.Content = "del", ""
+			}
+		}
+		c.MOps = append(c.MOps, o)
+	}
+	return c
+}
+
+// fixed manager histories: for every family add -> delete -> re-add of identical bytes, and change -> change back
+func mgrWitnesses(id *int) []Case {
+	var out []Case
+	for _, f := range []string{"conf", "stream", "secret", "ap"} {
+		out = append(out, Case{Fam: "mgr", ID: *id, Class: "mgr-readd-" + f, MOps: []MOp{
+			{Op: "write", Fam: f, Name: "a", Content: "A"}, {Op: "del", Fam: f, Name: "a"}, {Op: "write", Fam: f, Name: "a", Content: "A"},
+			{Op: "write", Fam: f, Name: "a", Content: "B"}, {Op: "write", Fam: f, Name: "a", Content: "A"},
+			{Op: "del", Fam: f, Name: "a"}, {Op: "write", Fam: f, Name: "a", Content: "A"}}})
+		*id++
+	}
+	for _, f := range []string{"hosts", "main", "dhparam"} {
+		out = append(out, Case{Fam: "mgr", ID: *id, Class: "mgr-back-" + f, MOps: []MOp{
+			{Op: "write", Fam: f, Content: "A"}, {Op: "write", Fam: f, Content: "B"}, {Op: "write", Fam: f, Content: "A"}, {Op: "write", Fam: f, Content: "A"}}})
+		*id++
+	}
+	return out
+}
+
 // ---------- names family: the real naming functions and manager paths on arbitrary strings ----------
 
 func fromInts(x []int) string {
@@ -631,6 +744,8 @@ func main() {
 				runHist(dir, repo, c)
 			case "names":
 				runNames(dir, repo, c)
+			case "mgr":
+				runMgr(dir, c)
 			case "startup":
 				runStartup(repo, c)
 			default:
@@ -688,8 +803,9 @@ type gen struct {
 	ings   []ident
 	vss    []ident
 	tss    []ident
-	served map[string]Res // kind(i|v|t):ns/name -> latest Res
-	order  []string       // insertion order of served keys (deterministic iteration)
+	served map[string]Res   // kind(i|v|t):ns/name -> latest Res
+	past   map[string][]Res // every version ever added, per identity (for byte-identical re-adds and change-backs)
+	order  []string         // insertion order of served keys (deterministic iteration)
 }
 
 func rkind(k string) string {
@@ -706,6 +822,16 @@ func rkey(kind, ns, name string) string { return rkind(kind) + ":" + ns + "/" + 
 
 func (g *gen) setServed(res Res) {
 	k := rkey(res.Kind, res.NS, res.Name)
+	if g.past == nil {
+		g.past = map[string][]Res{}
+	}
+	seen := false
+	for _, x := range g.past[k] {
+		seen = seen || x.Stamp == res.Stamp
+	}
+	if !seen {
+		g.past[k] = append(g.past[k], res)
+	}
 	if _, ok := g.served[k]; !ok {
 		g.order = append(g.order, k)
 	}
@@ -842,6 +968,10 @@ func (g *gen) tsIndex(id ident) int {
 // newRes makes a fresh add/update of identity id.
 func (g *gen) newRes(kind string, id ident) Res {
 	r := g.r
+	// the same object again, byte for byte: re-applied after a delete, or changed back to an earlier version
+	if old := g.past[rkey(kind, id[0], id[1])]; len(old) > 0 && r.Chance(2, 5) {
+		return vh.Pick(r, old)
+	}
 	res := Res{Kind: kind, NS: id[0], Name: id[1], Stamp: g.next()}
 	switch kind {
 	case "ming":
@@ -1096,6 +1226,21 @@ func witnesses(id *int) []Case {
 			Event{Op: "restart", Adds: []Res{{Kind: "ts", NS: "a", Name: "t", Stamp: 2, PT: true, Host: "pt0.example.com"}, {Kind: "vs", NS: "a", Name: "b", Stamp: 1}, {Kind: "ing", NS: "n", Name: "i", Stamp: 3}}}),
 		// passthrough TS that stops being passthrough, then is deleted
 		mk("witness-pt-update", addPT("a", "t", 1, true, "pt0.example.com"), addPT("a", "t", 2, false, ""), Event{Op: "del", Kind: "ts", NS: "a", Name: "t"}),
+		// add -> delete -> re-add of the byte-identical object, for every kind (the files must come back)
+		mk("witness-readd", add("ing", "a", "i", 1), add("vs", "a", "v", 2), add("ts", "a", "t", 3), addPT("a", "p", 4, true, "pt0.example.com"),
+			Event{Op: "del", Kind: "ing", NS: "a", Name: "i"}, Event{Op: "del", Kind: "vs", NS: "a", Name: "v"},
+			Event{Op: "del", Kind: "ts", NS: "a", Name: "t"}, Event{Op: "del", Kind: "ts", NS: "a", Name: "p"},
+			add("ing", "a", "i", 1), add("vs", "a", "v", 2), add("ts", "a", "t", 3), addPT("a", "p", 4, true, "pt0.example.com")),
+		// the same through the batch paths
+		mk("witness-readd-batch", Event{Op: "upd_tss", Adds: []Res{{Kind: "ts", NS: "a", Name: "t", Stamp: 1}}},
+			Event{Op: "upd_tss", Dels: [][2]string{{"a", "t"}}}, Event{Op: "upd_tss", Adds: []Res{{Kind: "ts", NS: "a", Name: "t", Stamp: 1}}},
+			Event{Op: "upd_vss", Adds: []Res{{Kind: "vs", NS: "a", Name: "v", Stamp: 2}}}, Event{Op: "bdel_vs", Dels: [][2]string{{"a", "v"}}},
+			Event{Op: "upd_vss", Adds: []Res{{Kind: "vs", NS: "a", Name: "v", Stamp: 2}}},
+			add("ing", "a", "i", 3), Event{Op: "bdel_ing", Dels: [][2]string{{"a", "i"}}}, add("ing", "a", "i", 3)),
+		// change -> change back
+		mk("witness-change-back", add("ing", "a", "i", 1), add("vs", "a", "v", 2), add("ts", "a", "t", 3),
+			add("ing", "a", "i", 4), add("vs", "a", "v", 5), add("ts", "a", "t", 6),
+			add("ing", "a", "i", 1), add("vs", "a", "v", 2), add("ts", "a", "t", 3)),
 		// the same key as Ingress, VS and TS; delete one at a time
 		mk("witness-same-key", add("ing", "a", "b", 1), add("vs", "a", "b", 2), addPT("a", "b", 3, true, "pt0.example.com"),
 			Event{Op: "del", Kind: "vs", NS: "a", Name: "b"}, Event{Op: "del", Kind: "ing", NS: "a", Name: "b"}, Event{Op: "del", Kind: "ts", NS: "a", Name: "b"}),
@@ -1195,6 +1340,11 @@ func generate(a vh.Args) []Case {
 	cases := witnesses(&id)
 	cases = append(cases, Case{Fam: "startup", ID: id, Class: "startup"})
 	id++
+	cases = append(cases, mgrWitnesses(&id)...)
+	for i := 0; i < a.N/6+10; i++ {
+		cases = append(cases, genMgr(root.Fork(uint64(id)+2<<32), id))
+		id++
+	}
 	for i := 0; i < a.N; i++ {
 		cases = append(cases, genHist(root.Fork(uint64(id)), id))
 		id++
